@@ -3,7 +3,7 @@ import itertools
 from .. import common as C, structs as S, clientgen as G
 from .c07 import run_histories, tok
 
-LEAN_MODULES = ["ZvtVerif.Properties.C19"]
+LEAN_MODULES = ["ZvtVerif.Properties.C19", "ZvtVerif.Properties.Traffic"]
 TRANSLATED = {"structs", "sequences", "errors"}      # translated tables this property consumes (a translator problem elsewhere does not break its tie)
 ASSUMPTIONS = ["fault-free transport; oracle = abstract specification (clientgen.Abs): exact packet sequence incl. pending query, reversal of the reported receipt, end-of-day"]
 
